@@ -16,7 +16,11 @@ HERE = os.path.dirname(os.path.abspath(__file__))
 ROOT = os.path.dirname(os.path.dirname(HERE))
 REPO = os.environ.get("TYPHON_REPO", "/repo")
 sys.path.insert(0, HERE)
+import normalize  # noqa: E402
 import py2lean  # noqa: E402
+
+# module-level functions the translator models itself (by name): never expanded in place
+BUILTIN_GUARDS = {"inrange"}
 
 # specs/<name>.py each define  MODULE = ("LeanModuleName", "path/in/repo.py", [function specs
 # in dependency order]); see specs/atmosphere.py for the spec keys.
@@ -62,10 +66,11 @@ def prepare(fn, spec, src):
     rg = spec.get("return_glue")
     if rg:
         last = fn.body[-1]
-        if not (isinstance(last, ast.Return) and ast.unparse(last.value) == rg):
-            raise py2lean.Refusal(f"return glue changed: {ast.unparse(last)}")
-        # `X[0] if flag else X`  ->  X
-        fn.body[-1] = ast.Return(value=last.value.orelse)
+        if isinstance(last, ast.Return) and last.value is not None and ast.unparse(last.value) == rg:
+            # `X[0] if flag else X`  ->  X
+            fn.body[-1] = ast.Return(value=last.value.orelse)
+        # (a return statement that is NOT the declared glue gets no special treatment: the translator's own rules
+        #  — scalar/array inference — accept it or refuse it)
     if spec.get("const_defaults"):
         # default arguments that are constants become fixed let-bindings
         args = fn.args
@@ -88,7 +93,7 @@ def generate(package="numeric", spec_dir="specs"):
     """package: lake package under /verif/lean that receives GenReal/ GenFloat/; spec_dir: directory
     (under tools/py2lean) with the spec files"""
     C = load_constants()
-    report = {"refused": {}, "functions": {}, "notes": {}}
+    report = {"refused": {}, "functions": {}, "notes": {}, "auto_helpers": {}}
     known = {}
     used_constants = {}
     outputs = {}
@@ -100,8 +105,12 @@ def generate(package="numeric", spec_dir="specs"):
             tree = ast.parse(src)
         except SyntaxError as e:
             for sp in specs:
-                report["refused"][f"{mod}.{sp['name']}"] = f"syntax error: {e}"
+                report["refused"][f"{mod}.{sp.get('name', sp.get('table'))}"] = f"syntax error: {e}"
             continue
+        normalize.annotate_literals(tree, src)
+        module_name = rel[:-3].replace("/", ".")
+        table = normalize.module_table(tree, module_name)
+        keep = {sp["name"] for sp in specs if "name" in sp} | BUILTIN_GUARDS
         fns = {n.name: n for n in tree.body if isinstance(n, ast.FunctionDef)}
         classes = {n.name: n for n in tree.body if isinstance(n, ast.ClassDef)}
         texts = {"real": [], "float": []}
@@ -132,11 +141,20 @@ def generate(package="numeric", spec_dir="specs"):
                 continue
             try:
                 per = {}
+                if table.get(name) != f"{module_name}.{name}":
+                    raise py2lean.Refusal("the module-level name is rebound after the definition")
                 for d in ("real", "float"):
-                    fn = ast.parse(ast.get_source_segment(src, fns[name])).body[0]
                     fsrc = ast.get_source_segment(src, fns[name])
                     tr = py2lean.Translator(C, known, fsrc)
                     spec = dict(sp)
+                    glue_texts = set(spec.get("glue", ()))
+                    # spelling variants -> canonical subset (aliases, numpy spellings, helper expansion, early returns, …)
+                    fn, helpers = normalize.prepare_function(fns[name], tree, module_name, keep=keep,
+                                                             is_glue=lambda st: ast.unparse(st) in glue_texts, table=table)
+                    tr.inline_failed = getattr(fn, "_inline_failed", {})
+                    if helpers:
+                        report["auto_helpers"][key] = [f"{h} (expanded in place)" for h in helpers]
+                    fn._py_name = name
                     spec["glue"] = prepare(fn, spec, fsrc)
                     spec["nparams"] = len(fn.args.args) - len(spec.get("fun_params", {}))
                     if lname != name:
